@@ -94,6 +94,10 @@ func oracle(c *sim.Case, order []int, obs *sim.Obs) (fs []failure) {
 	if !obs.SufChanged {
 		return fs
 	}
+	// the real constructor accepts the new value (it refuses duplicated addresses)
+	if obs.SufErr != "" {
+		fs = append(fs, failure{"new-suffrage-refused-by-NewSuffrage", obs.SufErr})
+	}
 	// unique members
 	seen := map[string]bool{}
 	for _, n := range obs.SufNodes {
